@@ -14,7 +14,7 @@ RULE = ("single-thread family: every positive-duration laminar family of <=N hos
         "calls (inside any op or at top level) x per launch {kernel on stream 7|9 with duration 0|3, no device "
         "activity} x optional unlinked kernel; two-thread family: main thread with 0..2 profiler steps and 0..2 "
         "'## backward ##' annotations x autograd-thread top-level ops placed inside / straddling / outside each "
-        "annotation x {one autograd thread, two autograd threads, no step thread}; epoch offset 1.7e15 so shifted "
+        "annotation x {one autograd thread, two autograd threads, no step thread}, each also as rank 1 of a two-rank job with the call graph built over all ranks; epoch offset 1.7e15 so shifted "
         "and unshifted times differ. non-trivial = some host event has device descendants below a child, or a "
         "backward op is re-parented")
 ASSUMPTIONS = [
@@ -125,18 +125,36 @@ def build_bwd_world(w) -> List[Dict[str, Any]]:
 COLS = ["depth", "height", "num_kernels", "kernel_dur_sum", "first_kernel_start", "last_kernel_end", "kernel_span"]
 
 
+RANK0_FIXED = dict(mode="bwd", layout=dict(steps=[[0, 40]], bwd=[[10, 30]]), ops=[[12, 6]], variant="one-bwd")
+
+
 def check(world) -> Dict[str, Any]:
     from hta.common.trace_call_graph import CallGraph
     from mc import htaenv
 
     viol: List[Any] = []
     evs = build_tree_world(world) if world["mode"] == "tree" else build_bwd_world(world)
-    rows = refmodel.parse_rows(evs)
-    m = min(r["ts"] for r in rows)
     ta, _ = htaenv.load_world({0: evs})
     cg = CallGraph(ta.t, ranks=[0])
-    df = cg.trace_data.get_trace(0)
-    tag = world["mode"]
+    res = verify_rank(cg, 0, evs, evs, world["mode"], world, viol)
+    execs = 1
+    if world["mode"] == "bwd":
+        # the same trace as rank 1 of a two-rank job, call graph built over all ranks
+        evs0 = build_bwd_world(RANK0_FIXED)
+        ta2, _ = htaenv.load_world({0: evs0, 1: evs})
+        cg2 = CallGraph(ta2.t)
+        verify_rank(cg2, 0, evs0, evs0 + evs, "bwd-rank0-of-2", world, viol)
+        verify_rank(cg2, 1, evs, evs0 + evs, "bwd-rank1-of-2", world, viol)
+        execs += 1
+    res["viol"] = _dedupe(viol)
+    res["execs"] = execs
+    return res
+
+
+def verify_rank(cg, rank: int, evs, all_evs, tag: str, world, viol: List[Any]) -> Dict[str, Any]:
+    rows = refmodel.parse_rows(evs)
+    m = min(r["ts"] for r in refmodel.parse_rows(all_evs))
+    df = cg.trace_data.get_trace(rank)
     ctx = dict(world=world)
     got_ids = {int(i) for i in df.index}
     # with two or more profiler steps the loader trims the trailing step (C12); the tree is that of the kept rows
@@ -165,7 +183,7 @@ def check(world) -> Dict[str, Any]:
             if float(g[c]) != float(want[c]):
                 viol.append((f"{tag}/{c}-wrong/{kind}", dict(ctx, id=i, name=ref["by"][i]["name"], got=float(g[c]), expected=want[c])))
     # get_stack_of_node: node + descendants + ancestors
-    for i, e in ref["info"].items():
+    for i, e in (ref["info"].items() if rank == 0 else []):
         if i in ref["device"]:
             continue
         try:
@@ -185,7 +203,7 @@ def check(world) -> Dict[str, Any]:
                if i not in ref["device"])
     nontrivial = deep or bool(ref["relinked"])
     outcome = tuple(sorted((i, e["depth"], e["height"], e["num_kernels"]) for i, e in ref["info"].items()))
-    return dict(viol=_dedupe(viol), nontrivial=nontrivial, outcome=outcome, execs=1)
+    return dict(viol=[], nontrivial=nontrivial, outcome=outcome, execs=1)
 
 
 def _dedupe(v):
